@@ -1309,6 +1309,13 @@ def _make_dual_use_func(func_ip, func_oop, domain, out_dtype):
             scalar_in = False
             scalar_out_shape = out_shape_from_array(x)
             scalar_out = False
+            # In a 1d domain with coordinates, a flat array of n points is
+            # allowed as well. Give it the regular shape (1, n) such that
+            # `x[0]` is the coordinate array and not the first point, as for
+            # a meshgrid. (Domains without `ndim`, e.g. `Strings`, keep flat
+            # arrays of their elements.)
+            if hasattr(domain, 'ndim') and ndim == 1 and x.ndim == 1:
+                x = x[None, :]
         elif x in domain:
             x = np.atleast_2d(x).T  # make a (d, 1) array
             scalar_in = True
